@@ -10,11 +10,11 @@ GEN = ("rapid state machine: a generated valid genesis (fees, allowlist, allowed
        "state-aware steps drawn from a weighted profile over all message types, blocks (1 ns .. years, landing on expirations), restarts and faucet steps; ")
 DIST = " Distinct = distinct (step kind, accepted?) sequences."
 
-def stateful(test, rule, quick=2400, thorough=32000, qsteps=40, tsteps=70, extra=None, qtimeout=900):
+def stateful(test, rule, quick=2400, thorough=96000, qsteps=40, tsteps=70, extra=None, qtimeout=900):
     d = {
         "test": test, "rule": GEN + rule + DIST, "assumptions": list(STATEFUL_ASSUMPTIONS),
         "quick": {"checks": quick, "steps": qsteps, "shards": 8, "timeout": qtimeout, "shrink": "15s"},
-        "thorough": {"checks": thorough, "steps": tsteps, "shards": 16, "timeout": 5400, "shrink": "60s"},
+        "thorough": {"checks": thorough, "steps": tsteps, "shards": 16, "timeout": 7200, "shrink": "60s"},
     }
     if extra:
         for k, v in extra.items():
@@ -28,7 +28,7 @@ def pure(test, rule, quick, thorough, assumptions, fuzz=None):
     d = {
         "test": test, "rule": rule, "assumptions": assumptions,
         "quick": {"checks": quick, "shards": 8, "timeout": 900, "shrink": "15s"},
-        "thorough": {"checks": thorough, "shards": 16, "timeout": 5400, "shrink": "60s"},
+        "thorough": {"checks": thorough, "shards": 16, "timeout": 7200, "shrink": "60s"},
     }
     if fuzz:
         d["thorough"]["fuzz"] = fuzz
@@ -71,7 +71,7 @@ CHECKS = {
     "C10": stateful("TestC10",
         "differential: each generated trace is executed 6 times in-process (as generated, again, with restarts at all / none / the complementary set of block boundaries, and with the failed messages removed) and, in the thorough tier, once more in a second OS process; "
         "per-block app hash, per-message success flag, ABCI code, response bytes, event bytes and gas must be identical (block hashes only for the failed-messages-removed run). "
-        "Non-trivial = a restart strictly inside the history followed by >=5 accepted messages, with data-module messages accepted.", quick=640, thorough=8000),
+        "Non-trivial = a restart strictly inside the history followed by >=5 accepted messages, with data-module messages accepted.", quick=640, thorough=24000),
     "C11": stateful("TestC11",
         "Put: accepted <=> reference admission rule (basket exists, class listed, type matches, start date >= criterion computed with exact calendar arithmetic at block time, amount positive within precision, cumulative owner balance) - both directions; "
         "Take: auto-retire honoured, delivered retired iff retire applies, response sums to amount/10^p, every entry but the last drains its batch, start dates non-decreasing, no untouched older batch, post-state balances match. "
@@ -87,17 +87,17 @@ CHECKS = {
         "stateful: ghost sequence counters per credit type / class / project start at the genesis sequences and advance only on success; every creation returns the independently formatted next id; stored sequences equal the ghosts; ids unique, match independently written regexes and the repo validators, parsers recover embedded ids, every reference resolves. "
         "pure: for arbitrary strings the validators accept exactly the regex language; formatters x parsers round-trip for all abbreviations, sequence numbers up to 2^64-1 and dates in years 1..9999. "
         "Non-trivial = a failed creation between two successes, or a creation crossing the zero-padded width.",
-        extra={"thorough": {"fuzz": [{"target": "FuzzC14Validators", "time": "120s"}]}}),
+        extra={"thorough": {"fuzz": [{"target": "FuzzC14Validators", "time": "300s"}]}}),
     "C15": pure("TestC15",
         "generated raw/graph content hashes (hash length 20..64, field values from {1,2,255,256,257,2^16,2^32-1,random}), near pairs differing in one field/byte/extension/type, and strings for the parser "
         "(mutated valid IRIs, arbitrary payloads re-encoded with a correct base58check checksum, non-canonical base58, extension variants). Oracles: ParseIRI(ToIRI(h)) == h (also via the ConvertHashToIRI/ConvertIRIToHash queries), "
         "h1 != h2 => ToIRI(h1) != ToIRI(h2), and any string parsing to a VALID content hash is its canonical IRI. Non-trivial = a valid hash with a field > 255, a valid near pair, or a string that parses to an anchorable hash; distinct = distinct cases.",
-        80000, 6000000, ["'accepts' in clause (c) is read as: parses to a content hash that passes Validate (what a message can anchor)"],
-        fuzz=[{"target": "FuzzC15ParseIRI", "time": "180s"}]),
+        80000, 30000000, ["'accepts' in clause (c) is read as: parses to a content hash that passes Validate (what a message can anchor)"],
+        fuzz=[{"target": "FuzzC15ParseIRI", "time": "300s"}]),
     "C16": stateful("TestC16",
         "configurations: production hasher, MinLength 1/2/8, and weak hashes with k in {1,2,3,16} distinct outputs (incl. repeated-byte outputs) injected through the verif build-tag hook; histories of Anchor/Attest/DefineResolver/RegisterResolver over a pool of 14 content hashes. "
         "After every step: DataID is a growing bijection id<->iri that never changes, anchor timestamp == block time of first anchoring forever, attestations written once, resolver rows and registrations never lost or changed, responses return stored iri/timestamp, only managers register to private resolvers. "
-        "Non-trivial = >=3 IRIs share a probe prefix AND an IRI is re-anchored in a later block.", quick=3200, thorough=48000),
+        "Non-trivial = >=3 IRIs share a probe prefix AND an IRI is re-anchored in a later block.", quick=3200, thorough=120000),
     "C17": stateful("TestC17",
         "custom steps 'query' and 'get': 27 list queries (filter argument present / absent / prefix-of-present; page sizes 1,2,3,5,n-1,n,n+1,1000; forward and reverse) walked by key and by offset through the real GRPCQueryRouter and compared as multisets and as sequences with a brute-force filter over the snapshot, "
         "totals checked on count_total requests; 11 single-entity queries compared with the stored rows. Genesis may contain prefix-colliding ids (C10/C100, C10-100/C10-1000). "
@@ -110,11 +110,11 @@ CHECKS = {
         "pairs of decimal strings from a grammar (signs, 0..40 digit coefficients with a point anywhere, e/E exponents -30..40, zeros incl. -0 / 0e5 / 0.000; pairs biased to equal values, one ulp apart, products/quotients straddling 34 digits) checked against math/big.Rat: parse, Add/Sub exact, guarded subtraction, MulExact/QuoExact exact-or-error, "
         "Mul/Quo within one unit of the 34th digit, SdkIntTrim == truncation (within 256 bits), BigInt, plain String() that re-parses, predicates, NumDecimalPlaces, and bit-identical operands (reflection over coefficient words) after every operation and after operating on results. "
         "Non-trivial = exact product or quotient not representable in 34 digits, or a zero/negative operand; distinct = distinct pairs.",
-        200000, 12000000, ["SdkIntTrim is only checked for values that fit cosmossdk.io/math.Int (256 bits)"],
-        fuzz=[{"target": "FuzzC19", "time": "180s"}]),
+        200000, 40000000, ["SdkIntTrim is only checked for values that fit cosmossdk.io/math.Int (256 bits)"],
+        fuzz=[{"target": "FuzzC19", "time": "300s"}]),
     "C20": pure("TestC20",
         "owners (20/32-byte, lower and upper case bech32), connection ids, inner messages of six registered types with arbitrary field contents, block times, and the four channel/capability combinations (with decoy channels and capabilities for other owners/connections); the outer message is marshalled, unmarshalled and UnpackInterfaces'd before the call; "
         "hand-written recording fakes check the exact lookups, exactly one SendTx iff both exist with that capability/connection/port, EXECUTE_TX, empty memo, timeout == block time + 60 s, and packet data that decodes to exactly one message byte-identical to the supplied one. "
         "Non-trivial = both lookups succeed and the inner message has non-default fields; distinct = distinct cases.",
-        40000, 3000000, ["the ICA controller and capability keepers are hand-written fakes"]),
+        40000, 10000000, ["the ICA controller and capability keepers are hand-written fakes"]),
 }
